@@ -31,13 +31,53 @@ pub const UNIVERSE_DEFAULT: [&str; 10] = ["", "/a", "/ab", "/a.b", "/a/a", "/a/Ã
 /// directory of a directory `x_wo` are the same path); names ending in `_wo` without such a
 /// sibling are ordinary names and must work.
 pub const UNIVERSE_WO: [&str; 10] = ["", "/a", "/ab", "/a.b", "/a/a", "/a/e_wo", "/a/a/b", "/c", "/c/d_wo", "/c/æ—¥_wo"];
+/// variant with sibling names that extend a directory's name by a character sorting below '/'
+/// ('.', '-'), above it ('0') and by a letter: prefix scans, range scans and sorted-map
+/// neighbourhood tests over a directory's key go wrong exactly here
+pub const UNIVERSE_SIB: [&str; 10] = ["", "/a", "/a.b", "/a-", "/a0", "/a/a", "/a/a/b", "/a.b/x", "/a0/x", "/c"];
+/// variant with odd but valid component names: leading dots ("..d", "...", ".h" are ordinary
+/// names, only "." and ".." navigate), the marker suffix INSIDE a name ("net_work" next to "net",
+/// "a_wo_b"), a space
+pub const UNIVERSE_ODD: [&str; 10] = ["", "/a", "/a/..d", "/a/..d/...", "/net_work", "/net", "/a/a_wo_b", "/.h", "/c", "/c/ x"];
 static UNIVERSE_VARIANT: std::sync::atomic::AtomicUsize = std::sync::atomic::AtomicUsize::new(0);
 /// the fixed path universe of this process (chosen once from the command line: `--names wo`)
 pub fn universe() -> &'static [&'static str; 10] {
-    if UNIVERSE_VARIANT.load(std::sync::atomic::Ordering::Relaxed) == 1 { &UNIVERSE_WO } else { &UNIVERSE_DEFAULT }
+    match UNIVERSE_VARIANT.load(std::sync::atomic::Ordering::Relaxed) {
+        1 => &UNIVERSE_WO,
+        2 => &UNIVERSE_SIB,
+        3 => &UNIVERSE_ODD,
+        _ => &UNIVERSE_DEFAULT,
+    }
+}
+/// `--names wo|sib|odd` (any stream): the path universe of this process
+pub fn select_universe(extra: &[String]) {
+    match extra.iter().position(|a| a == "--names").and_then(|i| extra.get(i + 1)).map(|s| s.as_str()) {
+        Some("wo") => set_universe_variant(1),
+        Some("sib") => set_universe_variant(2),
+        Some("odd") => set_universe_variant(3),
+        _ => {}
+    }
 }
 pub fn set_universe_variant(v: usize) {
     UNIVERSE_VARIANT.store(v, std::sync::atomic::Ordering::Relaxed);
+}
+
+/// the strings inside the bracketed lists (`[s<hex>,s<hex>]`) of an answer: listing names, walk paths
+pub fn listed_names(text: &str) -> Vec<String> {
+    let mut out = vec![];
+    let mut rest = text;
+    while let Some(i) = rest.find('[') {
+        let after = &rest[i + 1..];
+        let j = after.find(']').unwrap_or(after.len());
+        for tok in after[..j].split(',') {
+            let tok = tok.trim();
+            if tok.len() >= 1 && tok.starts_with('s') && tok[1..].bytes().all(|b| b.is_ascii_hexdigit()) {
+                out.push(dec_str(tok));
+            }
+        }
+        rest = &after[j..];
+    }
+    out
 }
 
 pub fn parent_of(p: &str) -> String {
@@ -102,6 +142,59 @@ pub fn gen_layers(rng: &mut Rng, n_layers: usize, populate_upper: bool) -> Vec<C
             }
         }
         layers.push(c);
+    }
+    // now and then ONE disagreement on the type of a path, of the only kind the union view gives a
+    // meaning to: a FILE in a lower layer at a path that is a DIRECTORY in some layer above it (the
+    // file is shadowed; the directories above AND BELOW it still merge their children). The
+    // opposite order â€” a directory with children below a file â€” would show entries under a file in
+    // the unchanged code already and stays outside the generated domain.
+    if n_layers >= 3 && rng.chance(1, 3) {
+        // the full sandwich, built on purpose: a top-level directory p that is a directory in layer
+        // i0, a file in layer j > i0 and a directory WITH a child in layer k > j
+        let tops: Vec<&str> = universe().iter().skip(1).cloned().filter(|p| parent_of(p).is_empty() && is_dir[*p] && universe().iter().any(|q| parent_of(q) == **p)).collect();
+        if !tops.is_empty() {
+            let p = *rng.pick(&tops[..]);
+            let child = universe().iter().find(|q| parent_of(q) == p).unwrap().to_string();
+            let k = 2 + rng.below(n_layers - 2);
+            let j = 1 + rng.below(k - 1);
+            let i0 = rng.below(j);
+            let below = format!("{}/", p);
+            for li in [i0, j, k] {
+                if !matches!(layers[li].get(p), Some(None)) || li == j {
+                    let doomed: Vec<String> = layers[li].keys().filter(|q| q.starts_with(&below)).cloned().collect();
+                    for q in doomed {
+                        layers[li].remove(&q);
+                    }
+                }
+            }
+            layers[i0].insert(p.to_string(), None);
+            layers[j].insert(p.to_string(), Some(random_bytes(rng)));
+            layers[k].insert(p.to_string(), None);
+            if !layers[k].contains_key(&child) {
+                // with the type every other layer gives this path
+                let v = if is_dir[child.as_str()] { None } else { Some(random_bytes(rng)) };
+                layers[k].insert(child, v);
+            }
+        }
+    } else if n_layers >= 2 && rng.chance(1, 3) {
+        let dirs: Vec<&str> = universe().iter().skip(1).cloned().filter(|p| is_dir[p]).collect();
+        if !dirs.is_empty() {
+            let p = *rng.pick(&dirs[..]);
+            if let Some(i0) = layers.iter().position(|c| matches!(c.get(p), Some(None))) {
+                if i0 + 1 < n_layers {
+                    let j = i0 + 1 + rng.below(n_layers - i0 - 1);
+                    let below = format!("{}/", p);
+                    let doomed: Vec<String> = layers[j].keys().filter(|k| k.starts_with(&below)).cloned().collect();
+                    for k in doomed {
+                        layers[j].remove(&k);
+                    }
+                    let par = parent_of(p);
+                    if par.is_empty() || matches!(layers[j].get(&par), Some(None)) {
+                        layers[j].insert(p.to_string(), Some(random_bytes(rng)));
+                    }
+                }
+            }
+        }
     }
     layers
 }
@@ -281,6 +374,7 @@ impl Op {
             "hcreate" | "happend" => return format!("{} {} {} {}", self.name, 100 + fs, fs, enc_str(&self.path)),
             "hwrite" => return format!("hwrite {} {}", 100 + fs, enc_bytes(self.bytes.as_ref().unwrap())),
             "hdrop" => return format!("hdrop {}", 100 + fs),
+            "hflush" => return format!("hflush {}", 100 + fs),
             _ => {}
         }
         let mut s = format!("op {} {} {}", fs, self.name, enc_str(&self.path));
@@ -452,7 +546,7 @@ pub fn gen_op(rng: &mut Rng, ts: &TreeSpec, snap: &BTreeMap<String, Obs>, cfg: &
             return Op { name: "write", path: p.to_string(), bytes: Some(random_bytes(rng)), dest: None, time: None };
         }
     }
-    if rng.chance(1, 5) {
+    if rng.chance(1, 9) {
         let leaves: Vec<&str> = uni
             .iter()
             .cloned()
@@ -465,9 +559,6 @@ pub fn gen_op(rng: &mut Rng, ts: &TreeSpec, snap: &BTreeMap<String, Obs>, cfg: &
         }
     }
     for _attempt in 0..200 {
-        let p = rng.pick(&uni[..]).to_string();
-        let t = typ_of(snap, &p);
-        let par_t = if p.is_empty() { 'D' } else { typ_of(snap, &parent_of(&p)) };
         let mut choices: Vec<(&'static str, u32)> = vec![
             ("create_dir", 6),
             ("write", 7),
@@ -507,6 +598,33 @@ pub fn gen_op(rng: &mut Rng, ts: &TreeSpec, snap: &BTreeMap<String, Obs>, cfg: &
             }
             r -= w;
         }
+        // the operand is chosen from the implementation's current state: mostly a path on which the
+        // call's precondition holds (so that successful calls of every kind are frequent and the tree
+        // grows deep enough for the recursive operations), often a near miss (the one clause of the
+        // precondition that fails: occupied target, missing target in an existing directory, NON-EMPTY
+        // directory for remove_dir, wrong type), sometimes anything
+        let has_child = |p: &str| uni.iter().any(|q| parent_of(q) == p && !q.is_empty() && typ_of(snap, q) != 'A');
+        let par_is_dir = |p: &str| p.is_empty() || typ_of(snap, &parent_of(p)) == 'D';
+        let class_of = |p: &str| -> u8 {
+            // 0 = precondition holds, 1 = near miss, 2 = far
+            let t = typ_of(snap, p);
+            match name {
+                "create_dir" => if !par_is_dir(p) { 2 } else if t == 'A' { 0 } else { 1 },
+                "create_dir_all" => if t == 'A' { 0 } else { 1 },
+                "write" | "touch" => if !par_is_dir(p) { 2 } else if t == 'D' { 1 } else { 0 },
+                "append" | "read" | "read_to_string" | "remove_file" | "copy_file" | "move_file" => if t == 'F' { 0 } else if par_is_dir(p) { 1 } else { 2 },
+                "remove_dir" => if t == 'D' && !has_child(p) { 0 } else if t == 'D' || par_is_dir(p) { 1 } else { 2 },
+                "read_dir" | "walk" | "remove_dir_all" => if t == 'D' { 0 } else if par_is_dir(p) { 1 } else { 2 },
+                "copy_dir" | "move_dir" => if t == 'D' && has_child(p) { 0 } else if t == 'D' { 1 } else { 2 },
+                "set_mtime" | "set_atime" | "set_ctime" | "metadata_t" => if t != 'A' { 0 } else if par_is_dir(p) { 1 } else { 2 },
+                _ => if t != 'A' { 0 } else { 1 },
+            }
+        };
+        let want = match rng.below(10) { 0..=5 => 0u8, 6..=8 => 1, _ => 2 };
+        let pool: Vec<&str> = uni.iter().cloned().filter(|p| class_of(p) == want).collect();
+        let p = if pool.is_empty() || rng.chance(1, 8) { rng.pick(&uni[..]).to_string() } else { rng.pick(&pool[..]).to_string() };
+        let t = typ_of(snap, &p);
+        let par_t = if p.is_empty() { 'D' } else { typ_of(snap, &parent_of(&p)) };
         // type discipline of C01 (unless wrong-type calls are wanted): file ops on non-dirs,
         // dir ops on non-files; bias towards valid calls but keep failing ones (missing target,
         // occupied target, missing parent)
@@ -541,7 +659,8 @@ pub fn gen_op(rng: &mut Rng, ts: &TreeSpec, snap: &BTreeMap<String, Obs>, cfg: &
         match name {
             "write" | "append" => op.bytes = Some(random_bytes(rng)),
             "copy_file" | "move_file" | "copy_dir" | "move_dir" => {
-                let d = rng.pick(&uni[..]).to_string();
+                let free: Vec<&str> = uni.iter().cloned().filter(|d| typ_of(snap, d) == 'A' && !d.is_empty() && typ_of(snap, &parent_of(d)) == 'D').collect();
+                let d = if !free.is_empty() && rng.chance(3, 5) { rng.pick(&free[..]).to_string() } else { rng.pick(&uni[..]).to_string() };
                 // destination outside the source subtree (documented non-termination otherwise)
                 if d == p || d.starts_with(&format!("{}/", p)) || p.is_empty() {
                     continue;
@@ -991,7 +1110,15 @@ pub fn judge(run: &Run, model_out: &[String], ts: &TreeSpec, rep: &mut Report) {
             }
         }
         if ts.preds.contains(&"hidden-markers") {
-            if impl_snap.contains(&hex(b".whiteout")) || impl_snap.contains(&hex(b"_wo")) || impl_walk.contains(&hex(b".whiteout")) {
+            // every name a listing or a walk delivers: never ".whiteout", and a name ending in the marker
+            // suffix only if the path universe itself has an entry of that name (the `wo`/`odd` universes)
+            let leaked = |text: &str| -> bool {
+                listed_names(text).iter().any(|n| {
+                    let base = name_of(n);
+                    base == ".whiteout" || n.contains("/.whiteout") || (base.ends_with("_wo") && !universe().iter().any(|u| name_of(u) == base))
+                })
+            };
+            if leaked(&impl_snap) || leaked(&impl_walk) {
                 rep.fail(mk("prop", format!("{}:{}:marker-visible", kind_class(&run.cfg_name), opname), "overlay bookkeeping (.whiteout / *_wo) is visible in the overlay's namespace".into(), impl_snap, ""));
             }
         }
@@ -1268,19 +1395,17 @@ pub fn tree_spec_for(prop: &str) -> TreeSpec {
 
 pub fn run(o: &Opts) -> Report {
     let prop = o.extra.iter().position(|a| a == "--prop").and_then(|i| o.extra.get(i + 1)).cloned().unwrap_or_else(|| "C01".into());
-    if o.extra.iter().position(|a| a == "--names").and_then(|i| o.extra.get(i + 1)).map(|s| s.as_str()) == Some("wo") {
-        set_universe_variant(1);
-    }
+    select_universe(&o.extra);
     let ts = tree_spec_for(&prop);
     let mut rep = Report::new("tree");
     let mut rng = Rng::new(o.seed ^ 0x7ee);
     let mut world = RWorld::new(&o.scratch);
-    let (n_runs, n_ops) = if o.thorough() { (60, 60) } else { (10, 30) };
+    let (n_runs, n_ops) = if o.thorough() { (60, 60) } else { (20, 36) };
     let mut runs: Vec<Run> = vec![];
     if prop == "C02" {
         // lock-step: the SAME operation sequence on the real MemoryFS and the real PhysicalFS;
         // direct differential, no model involved in this oracle
-        let pairs = if o.thorough() { 120 } else { 20 };
+        let pairs = if o.thorough() { 120 } else { 40 };
         for r in 0..pairs {
             let cfg_m = build_cfg("mem", &mut rng);
             let run_m = run_impl(&mut world, cfg_m, &ts, &mut rng, n_ops, None);
